@@ -598,6 +598,44 @@ func c11generate(c *core.Check) {
 		missed, targets := rules.MustPass(g, func(x ast.Node) bool { return x == ast.Node(prepCall) }, func(x ast.Node) bool { return x == ast.Node(loop.X) })
 		okDom = targets > 0 && len(missed) == 0
 	}
+	// the request object is shared by all iterations: its per-plugin field must be assigned on every path of the loop body
+	// that reaches Execute, otherwise a plugin sees the parameters of the plugin (or language) processed before it
+	nExec := 0
+	ast.Inspect(fd.Body, func(n ast.Node) bool {
+		rs, ok := n.(*ast.RangeStmt)
+		if !ok {
+			return true
+		}
+		var exec *ast.CallExpr
+		var reqName string
+		for _, call := range rules.Calls(rs.Body, false) {
+			if fn := rules.Callee(info, call); fn != nil && (fn.Name() == "Execute" || fn.Name() == "Invoke") && len(call.Args) == 1 {
+				exec, reqName = call, rules.ExprString(call.Args[0])
+			}
+		}
+		if exec == nil {
+			return true
+		}
+		nExec++
+		lg := rules.CFG(info, rs.Body, nil)
+		missed, targets := rules.MustPass(lg, func(x ast.Node) bool {
+			as, ok := x.(*ast.AssignStmt)
+			if !ok {
+				return false
+			}
+			for _, l := range as.Lhs {
+				if rules.ExprString(l) == reqName+".PluginParameters" {
+					return true
+				}
+			}
+			return false
+		}, func(x ast.Node) bool { return x == ast.Node(exec) })
+		c.Decide(targets > 0 && len(missed) == 0, "plugin-params-per-iteration", fmt.Sprintf("%s/range %s/%s(%s)", key, rules.ExprString(rs.X), rules.ExprString(exec.Fun), reqName), c.Prog.Rel(exec.Pos()),
+			reqName+".PluginParameters is assigned on every path of an iteration before the plugin runs",
+			"some path through the loop body reaches the plugin call without assigning "+reqName+".PluginParameters: the request is reused, so that plugin receives the parameters left by the previous plugin")
+		return true
+	})
+	c.Min("plugin-params-per-iteration", 2)
 	c.Decide(indexed != "" && indexed == prepArg && okDom, "plugin-lockstep", key+"/range g.plugins", c.Prog.Rel(loop.Pos()),
 		"parameters come from "+indexed+"[i]; g.plugins was built from the same slice by preparePlugins on every path to the loop",
 		fmt.Sprintf("plugin i takes its parameters from %s[i] but g.plugins is built from %q", indexed, prepArg))
